@@ -150,7 +150,7 @@ impl Prop for C05 {
     }
 
     fn cases(&self, tier: Tier) -> u32 {
-        tier.pick(24_000, 400_000)
+        tier.pick(24_000, 300_000)
     }
 
     fn strategy(&self, _ctx: &Ctx) -> BoxedStrategy<CollCase> {
